@@ -15,6 +15,13 @@ MAXD = gen.MAXD
 OPS = ["+", "-", "*", "%", "<", "<=", ">", ">=", "==", "!="]
 TRAPS = ["0.1", "0.2", "0.3", "1.1", "2.675", "0.0000000000000000000000000001", "1.10", "1.100", "007", "0.0", "00.50", "9007199254740993", "79228162514264337593543950335", "7.9228162514264337593543950335", "0.7", "1.15", "4.35", "1234567890.123456789"]
 BAD = ["0.0000000000000000000000000001.", "0.0000000000000000000000000001.2.3", "12345678901234567890123456789.1.1", "0.0000000000000000000000000001e5", "79228162514264337593543950335.5.", "1.2.3", "1..2", "1.2.", "12e", "1e+", "1e-", "1.5.", "0.1.2", "1.2e", "3.e", "1.2.3.4", "0..", "5e+-2", "1e5e5"]
+# malformed tails placed before, at and beyond the point where the 28-decimal / 96-bit precision is exhausted
+for _nd in range(20, 36):
+    for _tail in ("e5", "E5", "e+5", "e-5", "e", "E", ".5", ".", "..1", "e5.5"):
+        BAD.append("0." + "0" * (_nd - 1) + "1" + _tail)
+        BAD.append("0." + "0" * (_nd - 2) + "11" + _tail)
+        BAD.append("7" * _nd + ".59" + _tail)
+        BAD.append("79228162514264337593543950335"[: max(1, _nd - 6)] + "." + "3" * 7 + _tail)
 
 
 def lit_parts(text):
